@@ -324,7 +324,7 @@ func TestVerif_Histories(t *testing.T) {
 			f.(func(string, string))(point, handle)
 		}
 	})
-	r.ParallelCases(vkit.N(2000, 80000), vkit.Workers(), func(i int) {
+	r.ParallelCases(vkit.N(6000, 150000), vkit.Workers(), func(i int) {
 		s := &sim{r: r, idx: i, fp: vkit.NewHash()}
 		h := fmt.Sprintf("c19-%d", i)
 		s.db = statedb.New().NewHandle(h)
